@@ -9,6 +9,8 @@ INVARIANT I_FallBack
 INVARIANT I_Determined
 INVARIANT I_Content
 INVARIANT I_Values
+INVARIANT I_Empty
+INVARIANT I_Unreadable
 INVARIANT I_Plat
 INVARIANT I_Face
 POSTCONDITION Witnesses
